@@ -203,7 +203,10 @@ def restricted_simple_types(ctx):
              ("time", datetime.time(4, 5, 6), "04:05:06", datetime.time(4, 5, 6)),
              ("decimal", decimal.Decimal("1.50"), "1.50", decimal.Decimal("1.50")),
              ("double", float("inf"), "INF", float("inf")), ("string", "s", "s", "s")]
-    decl = "".join('<xsd:simpleType name="R%d"><xsd:restriction base="xsd:%s"/></xsd:simpleType>' % (i, c[0])
+    # (every second one through an intermediate named restriction: R -> B -> builtin)
+    decl = "".join('<xsd:simpleType name="R%d"><xsd:restriction base="xsd:%s"/></xsd:simpleType>' % (i, c[0]) if i % 2 == 0
+                   else '<xsd:simpleType name="B%d"><xsd:restriction base="xsd:%s"/></xsd:simpleType><xsd:simpleType '
+                        'name="R%d"><xsd:restriction base="x:B%d"/></xsd:simpleType>' % (i, c[0], i, i)
                    for i, c in enumerate(cases))
     members = "".join('<xsd:element name="m%d" type="x:R%d" minOccurs="0"/>' % (i, i) for i in range(len(cases)))
     schema = ('%s<xsd:element name="f"><xsd:complexType><xsd:sequence>%s</xsd:sequence></xsd:complexType></xsd:element>'
